@@ -27,8 +27,9 @@ LIB = {
     "Template:ar": "{{{1}}}",
     "Template:dv": "<div>",
     "Template:row": "|-\n| c",
+    "Template:nw": "p <nowiki>''q'' [[r]]</nowiki> s",     # nowiki text that comes from a template body
 }
-LIBTOKENS = ["{{ts}}", "{{te}}", "{{li}}", "{{hd}}", "{{ar|", "{{dv}}", "{{row}}", "}}", "\n", "a", "|", "==", "*",
+LIBTOKENS = ["{{ts}}", "{{te}}", "{{li}}", "{{hd}}", "{{ar|", "{{dv}}", "{{row}}", "{{nw}}", "}}", "\n", "a", "|", "==", "*",
              "</div>", "'''", "[[", "]]", "{{{1|", "}}}", "<pre>", "|-"]
 MODES = [{}, {"pre_expand": True}, {"expand_all": True}, {"additional_expand": ["ts", "li"]}]
 
@@ -306,7 +307,7 @@ def main(run):
         "distinct_nontrivial": len(run.acc.sets.get("shapes", ())),
         "rule": "every string t1..tk over the %d-token alphabet T for k<=%s (and k=%s over a %d-token core); every string of 4..%s tokens over each of %d focused "
                 "12-token alphabets (links, tables, lists, html, calls, headings); every k<=%s string over "
-                "a %d-token alphabet with calls to 7 structural templates under %d expansion modes; towers open^d x close^d, "
+                "a %d-token alphabet with calls to 8 structural templates under %d expansion modes; towers open^d x close^d, "
                 "unclosed and over-closed for %d nestable constructs and every d in 1..100; 43 texts with the package's own placeholder code points inside each construct%s. Non-trivial = distinct tree skeleton "
                 "(kinds + nesting, text ignored) with >= 3 node kinds."
                 % (len(TOKENS), "3" if q else "4", "4" if q else "5", 24 if q else 30, "5" if q else "6", len(FOCUS), "3" if q else "4", len(LIBTOKENS),
